@@ -67,16 +67,39 @@ func c05(c *wk.Ctx) {
 		}
 	}
 	// ---- 2. refused lengths
+	badLens := []int{}
 	for n := 0; n < 48; n++ {
+		badLens = append(badLens, n)
+	}
+	for _, b := range []int{64, 160, 256, 1024, 4096, 65536} {
+		badLens = append(badLens, b-1, b+1, b+8, b+15)
+	}
+	for _, n := range badLens {
 		for _, enc := range []bool{true, false} {
 			if c.Mine(idx) {
 				r := c.Rand(idx)
 				key, iv, data := rbytes(r, 32), rbytes(r, 32), rbytes(r, n)
 				c.Begin(idx, fmt.Sprintf("ige badlen n=%d enc=%v", n, enc))
 				out := make([]byte, n+16)
+				for i := range out {
+					out[i] = 0x5A
+				}
+				d0 := append([]byte{}, data...)
 				var err error
 				pan, msg, st := wk.Guard(func() { err = ige.VerifIGE(enc, data, out, key, iv) })
 				bad := n == 0 || n%16 != 0
+				if bad && !pan && err != nil {
+					// a refused call leaves the caller's buffers alone: nothing of the output buffer is written
+					for i := range out {
+						if out[i] != 0x5A {
+							c.Viol("C05", idx, "ige/badlen-refused-but-output-written", fmt.Sprintf("input of length %d (enc=%v) is refused, but byte %d of the caller's output buffer was written before that", n, enc, i), n)
+							break
+						}
+					}
+					if !bytes.Equal(data, d0) {
+						c.Viol("C05", idx, "ige/badlen-refused-but-input-modified", fmt.Sprintf("length %d", n), n)
+					}
+				}
 				switch {
 				case pan:
 					c.Viol("C05", idx, "ige/panic/"+st, fmt.Sprintf("len %d: %s", n, msg), n)
